@@ -49,10 +49,10 @@ def lit2_catalogue_literals(ctx):
     # writer: string literals turned into column keys (`"x".to_string()`), excluding table names
     W = set()
     for n in find(ing, 'mcall'):
-        if n['method'] == 'to_string' and n['recv'].get('k') == 'lit' and 'str' in n['recv']:
-            s = n['recv']['str']
-            if not s.startswith('_meta'):
-                W.add(s)
+        if n['method'] in ('to_string', 'to_owned', 'into') :
+            for s in strings_in(n['recv'], ast):
+                if not s.startswith('_meta') and n['recv'].get('k') in ('lit', 'path'):
+                    W.add(s)
     new = ast.fn('Table::new', 'mem_store/table.rs')
     seeds = {}
     for iff in find(new, 'if'):
@@ -62,7 +62,7 @@ def lit2_catalogue_literals(ctx):
                 continue
             cs = [s for s in strings_in(cond) if s.startswith('_meta')]
             if cs:
-                seeds.setdefault(cs[0], set()).update(strings_in(block))
+                seeds.setdefault(cs[0], set()).update(strings_in(block, ast))
         break
     cols = seeds.get('_meta_columns_', set())
     tabs = seeds.get('_meta_tables', set())
@@ -73,8 +73,8 @@ def lit2_catalogue_literals(ctx):
     for c in find(sq, 'call'):
         if c.get('func') and (c['func'].get('path') or '').endswith('Query::read_column'):
             for a in c['args'][1:]:
-                if a.get('k') == 'lit' and 'str' in a:
-                    R.add(a['str'])
+                for s_ in strings_in(a, ast):
+                    R.add(s_)
     ctx.require(R, 'LIT-2: reader literal not found in schedule_query_column_names')
     sc = ast.fn('LocustDB::search_column_names', 'src/locustdb.rs')
     sql = ' '.join(strings_in(sc))
